@@ -311,6 +311,18 @@ def replay_file(pid, path):
     if line[1] == "grouping":
         import emit_props
         return emit_props.replay_grouping(pid, path)
+    if line[1] == "ctor":
+        import lower_props
+        return lower_props.replay_ctor(pid, line, path)
+    if line[1] == "visibility":
+        import imp_props
+        return imp_props.replay(pid, line, path)
+    if line[1] == "cursor":
+        import parse_props
+        return parse_props.replay_cursor(pid, line, path)
+    if line[1] in ("lowerif", "emitstmt", "assign", "lowerstmts", "emitexprs", "callargs"):
+        import stmt_props
+        return stmt_props.replay(pid, line, path)
     if line[1] == "parse":
         import parse_props
         return parse_props.replay_parse(pid, line, path)
@@ -325,7 +337,7 @@ def replay_file(pid, path):
             say(f"VIOLATION property={pid} replay={path}")
             return 1
         return 0
-    if line[1] in ("tc", "compat"):
+    if line[1] in ("tc", "compat", "constvalues", "nominal", "constslice", "constindex"):
         import tc_props
         bad = tc_props.replay_tc(pid, line)
         if bad:
